@@ -757,8 +757,8 @@ def has_dirlink_source(spec: dict, R: str, tree: T.Dict[str, tuple]) -> bool:
 
 # ------------------------------------------------------------------ generators
 
-DIRN = ['share', 'lib', 'include', 'my dir', 'dönér', '日本', 'a.b', 'x-y', 'd #1', "q'uote", ' lead']
-FILEN = ['f.txt', 'a b.dat', 'ünï.h', 'prog', 'lib x.so.1', '文.1', '-dash', 'semi;colon', 'tab\tname', '.hidden',
+DIRN = ['share', 'tabdir\t', 'lib', 'include', 'my dir', 'dönér', '日本', 'a.b', 'x-y', 'd #1', "q'uote", ' lead']
+FILEN = ['f.txt', 'trail ', 'a b.dat', 'ünï.h', 'prog', 'lib x.so.1', '文.1', '-dash', 'semi;colon', 'tab\tname', '.hidden',
          'f,comma', '#hash', 'UPPER', 'p|pe', '(paren)', 'star*']
 LINKN = ['lnk', 'link two', 'λ-link']
 TAGS = [None, 'runtime', 'devel', 'man', 'i18n', 'my tag']
